@@ -369,7 +369,7 @@ func (in c10Inst) ringConfig(dse bool) model.RingConfig {
 }
 
 func (in c10Inst) bedConfig(cl *fakecass.Cluster) px.BedConfig {
-	bc := px.BedConfig{Cluster: cl, DC: in.Self.DC, Tokens: in.Self.Tokens}
+	bc := px.BedConfig{Cluster: cl, DC: in.Self.DC, Tokens: in.Self.Tokens, MaxVersion: primitive.ProtocolVersionDse2}
 	if !in.NoRPC {
 		bc.RPCAddr = in.Self.Text
 	}
@@ -510,6 +510,7 @@ type c10Res struct {
 	Rows   [][]c10Cell
 	Meta   string // metadata inconsistency found while reading
 	PrepID []byte
+	MetaID []byte // result metadata id of a PREPARED result (v5, DSEv2)
 	NVars  int
 }
 
@@ -686,6 +687,7 @@ func c10Cols(md *message.RowsMetadata) ([]c10Col, string) {
 type c10Client struct {
 	cl     *rawcql.Client
 	stream int16
+	dead   bool // the proxy closed the connection in answer to a request (reported once)
 }
 
 func (k *c10Client) next() int16 { k.stream = k.stream%30000 + 1; return k.stream }
@@ -723,6 +725,7 @@ func (k *c10Client) call(msg message.Message) (*c10Res, error) {
 	case *message.PreparedResult:
 		res.Kind = "prepared"
 		res.PrepID = m.PreparedQueryId
+		res.MetaID = m.ResultMetadataId
 		res.Cols, res.Meta = c10Cols(m.ResultMetadata)
 		if m.VariablesMetadata != nil {
 			res.NVars = len(m.VariablesMetadata.Columns)
@@ -1418,6 +1421,9 @@ func (x *c10Run) checkProjection(v *c10View, table string, sels []model.Selector
 
 // runList runs one selector list as QUERY and as PREPARE+EXECUTE on one client.
 func (x *c10Run) runList(k *c10Client, v *c10View, table string, sels []model.Selector) bool {
+	if k.dead {
+		return false
+	}
 	q := model.SelectCQL(sels, table)
 	ver := k.cl.Version
 	if c10StarMixed(sels) && !c10FlagStarMix {
@@ -1436,6 +1442,13 @@ func (x *c10Run) runList(k *c10Client, v *c10View, table string, sels []model.Se
 
 	pres, err := k.call(&message.Prepare{Query: q})
 	if err != nil {
+		if k.cl.IsClosed() && res.Kind == "rows" {
+			k.dead = true
+			x.violate(fmt.Sprintf("C10/prepare/connection-closed-but-query-served/%s/%s/v%d", x.g.dseName(), table, int(ver)),
+				fmt.Sprintf("QUERY %q is served (%d rows), but in answer to PREPARE of the same text on a protocol version %d connection the proxy closed the connection without a reply", q, len(res.Rows), int(ver)),
+				map[string]interface{}{"query": q, "version": int(ver)})
+			return served
+		}
 		x.r.Inconc(fmt.Sprintf("cfg %d: no reply to PREPARE %q: %v", x.g.Idx, q, err))
 		return false
 	}
@@ -1460,7 +1473,7 @@ func (x *c10Run) runList(k *c10Client, v *c10View, table string, sels []model.Se
 	if pres.NVars != 0 {
 		x.r.Obs("prepare-with-bind-variables", 1)
 	}
-	eres, err := k.call(&message.Execute{QueryId: pres.PrepID, Options: &message.QueryOptions{Consistency: primitive.ConsistencyLevelOne}})
+	eres, err := k.call(&message.Execute{QueryId: pres.PrepID, ResultMetadataId: pres.MetaID, Options: &message.QueryOptions{Consistency: primitive.ConsistencyLevelOne}})
 	if err != nil {
 		x.r.Inconc(fmt.Sprintf("cfg %d: no reply to EXECUTE %q: %v", x.g.Idx, q, err))
 		return false
@@ -1575,6 +1588,13 @@ func c10RunConfig(c *Ctx, g *c10Cfg, nLists int) {
 		closeBed(bed, k4, k3)
 		return
 	}
+	// clients of the versions that carry result-metadata ids (every third configuration v5, every third DSEv2)
+	var k5 *c10Client
+	if g.Idx%3 != 2 {
+		if k5 = dial(bed, []primitive.ProtocolVersion{primitive.ProtocolVersion5, primitive.ProtocolVersionDse2}[g.Idx%3]); k5 != nil {
+			defer k5.cl.Close()
+		}
+	}
 	view := x.readInstance(k4, ring, "primary", "other-configuration")
 	if view == nil {
 		closeBed(bed, k4, k3)
@@ -1607,7 +1627,11 @@ func c10RunConfig(c *Ctx, g *c10Cfg, nLists int) {
 			for _, s := range sels {
 				r.Obs("selector:"+s.Shape(), 1)
 			}
-			for _, k := range []*c10Client{k4, k3} {
+			ks := []*c10Client{k4, k3}
+			if k5 != nil && li%2 == 0 {
+				ks = append(ks, k5)
+			}
+			for _, k := range ks {
 				x.runList(k, view, table, sels)
 				r.Obs(fmt.Sprintf("client:v%d", k.cl.Version), 1)
 			}
